@@ -68,6 +68,10 @@ class LogManager:
         return self.swallow and exc[0] is not None and issubclass(exc[0], Err)
 
 
+class DerivedLogManager(LogManager):
+    """Inherits __enter__/__exit__/__aenter__/__aexit__ from its base class."""
+
+
 LM = LogManager
 
 
@@ -102,7 +106,7 @@ class Env:
         self.on_probe(fr, inner, active, exiting, where)
 
     def m(self, i: int, shape: str = "self") -> LM:
-        return LM(self, i, False, shape)
+        return (DerivedLogManager if i % 2 else LogManager)(self, i, False, shape)
 
     class _AnyBox:
         def __getitem__(self, k: Any) -> Any:
